@@ -26,6 +26,11 @@ CHECKS = {
    text="Theorems over all valid histories: the mirror of mem.go returns exactly the reference model's results; the reference model gives fresh independent descriptors, Create fails iff the name exists and then changes nothing, links share the inode, Delete leaves inodes and descriptors alone, ReadAt returns exactly the existing bytes of the range, List is exactly the set of names, AtomicCreate installs exactly the data and touches no other name; the model invariant holds in every reachable state. Tied to the code by the frozen bodies of mem.go and the package wrappers (kernel-checked per run) and by generated valid histories (with client-side slice mutation) executed on the real MemFs, the real DirFs and through the wrappers against the extracted models.",
    note="DirFs has no Coq model (the kernel is its implementation): it is tied to the reference model by the differential run only. Aliasing of slices is observable only on the Go side. Names are drawn from a pool of simple names (no path separators), as the property states. Model reflects /repo after the fix: commit giving MemFs a descriptor table.",
    ref="DESIGN.md §5 C12"),
+ "C13": dict(
+   technique="Coq proofs over a POSIX model with the regenerated skeleton of DirFs.AtomicCreate interpreted in it (prefix/crash theorem, durable-before-visible, completeness; invariant proof over ALL interleavings of two calls) + per-run shape obligation + strace kill/EIO enumeration at every system call + concurrent runs with a polling reader",
+   text="DirFs.AtomicCreate is not hand-modelled: its regenerated statement skeleton is interpreted as a POSIX program. For ANY body accepted by the boolean shape checker (unique temp name, O_CREAT|O_TRUNC, write loop consuming the data, fsync of that descriptor, rename onto path.Join(dir,fname), all errors surfaced): every prefix of its system calls — every crash point, every single failing call, every instant — leaves the destination old-or-exactly-data for every prior state, leftover and chunking; visible implies durable; the completed call installs exactly the data. Two calls with unique temps: for every interleaving, different names do not interfere and the same name ends with one complete data. Counter-examples in the same model when the shape is violated. Per run the shape is evaluated on the regenerated skeleton; the real code is killed at / given EIO in each of its system calls over prior contents and leftovers, its observed system-call order is compared with the shape, and concurrent calls run against a polling reader on DirFs and MemFs.",
+   note="power loss cannot be produced here: durable-before-visible rests on the model's assumptions (fsync makes the inode durable; rename atomic, not reordered before the fsync) plus the observed order; kill is injected at system-call entry. Model reflects /repo after the fix: commit making the temp file unique and truncated.",
+   ref="DESIGN.md §5 C13"),
  "C14": dict(
    technique="Coq proof (MemFs as instance of the single-lock linearizability theorem; transfer to the reference model along valid linearizations; two-operation corollaries) + verified sound-and-complete checker for recorded histories + per-run lock-shape obligations + race detector",
    text="Theorem: for every number of clients, operation sequences and schedules, the MemFs history is linearizable w.r.t. the sequential MemFs model, and w.r.t. the reference model whenever the operations respect the preconditions in linearization order; corollaries: racing Creates of one name succeed exactly once, appends through distinct descriptors are both applied contiguously, descriptors handed out are distinct. Per run: every exported MemFs method is Lock(); defer Unlock(); body, helpers never touch the lock, the method set is the analysed one, no goroutines; DirFs methods are single system calls and stateless. Recorded concurrent histories of the real MemFs and DirFs are judged against the reference model by the extracted checker; -race runs and runtime fatal errors are reported.",
